@@ -441,9 +441,23 @@ def check(pid, tier):
     P = []            # broken proof obligations
     with Lock():
         tr = translate()
-        if tr.strip():
-            notes.append("translator: " + tr.strip())
-            P.append("translator: " + tr.strip()[:300])
+        fallbacks_used = []
+        for ln in tr.splitlines():
+            ln = ln.strip()
+            if not ln:
+                continue
+            if ln.startswith("extract-fallback:"):
+                # the source no longer has the shape the translator's pattern expects for this constant: the
+                # committed snapshot value is the (hand-written) model of it and the correspondence check is its tie
+                fallbacks_used.append(ln[len("extract-fallback:"):].strip())
+                continue
+            tag = re.match(r"extract: \[([C0-9, ]+)\]", ln)
+            if tag and pid not in [x.strip() for x in tag.group(1).split(",")]:
+                continue
+            P.append("translator: " + ln[:300])
+        if fallbacks_used:
+            notes.append("translator could not re-derive from the source (snapshot value used, tie = correspondence check): "
+                         + "; ".join(fallbacks_used))
         rd = lake("ippmodel")
         driver_ok = rd.returncode == 0
         if not driver_ok:
@@ -551,8 +565,11 @@ def check(pid, tier):
     # --- P / D without O: widen the search ---------------------------------------------------------------
     if (P or dis) and not new_o and harness_ok:
         found = None
+        budget = cfg.get("search_budget_s", 240 if tier == "quick" else 900)
         if driver_ok or True:
             for extra in range(1, 4):
+                if extra > 1 and time.time() - t0 > budget:
+                    break
                 sd = seed * 1000 + extra
                 d2 = os.path.join(rundir, f"search{extra}")
                 try:
@@ -566,7 +583,7 @@ def check(pid, tier):
                         break
                 except subprocess.TimeoutExpired:
                     break
-                if time.time() - t0 > cfg.get("search_budget_s", 600):
+                if time.time() - t0 > budget:
                     break
         if found:
             sd, (i, case, im, mo, text) = found
@@ -601,6 +618,7 @@ def check(pid, tier):
         "samples": stats.get("samples", [])[:5] or [clip(c) for (_, c, _, _, _) in (dis + ofail)[:2]] or ["(no cases run)"],
         "exhaustive": bool(stats.get("exhaustive", False)),
         "input_distribution": {"ops": stats.get("ops", {}), "classes": stats.get("classes", {}), "corpus_cases": stats.get("corpus_cases", 0), "shape": shape},
+        "translator_fallbacks": fallbacks_used,
         "correspondence": {"cases_compared": n - getattr(compare, "skipped", 0), "cases_model_skipped": getattr(compare, "skipped", 0), "model_vs_implementation_disagreements": len(dis),
                            "implementation_oracle_failures": len(ofail), "implementation_vs_spec_failures": len(sfail)},
         "known_findings_seen": {k: v[1] for k, v in known_hits.items()},
